@@ -12,9 +12,10 @@ Hypothesis Hsize0 : forall b, 1 <= sizes h b 0.
 Variable vdef : V.
 Variable mk : hinfo -> V.
 Variable score_fn : V -> scored Z.
+Variable reissue : V -> V.
 Definition hk (a : hstate) (id : tid) (v : V) : hstate := a.
 Notation ost := (@ostate hstate V Z).
-Notation stepf := (step vdef score_fn (hpopulate h mk vdef) hk hk (fun a => a) (fun v => v)).
+Notation stepf := (step vdef score_fn (hpopulate h mk vdef) hk hk (fun a => a) reissue).
 
 (* a COMPLETED trial never changes status or score again *)
 Lemma step_tle c s o : abort_early c = false -> Inv s -> tle (trials s) (trials (fst (stepf c s o))).
@@ -119,21 +120,21 @@ Proof.
 Qed.
 
 Theorem C10_run c ops : abort_early c = false ->
-  Forall (fun rs => HI (snd rs)) (run vdef score_fn (hpopulate h mk vdef) hk hk (fun a => a) (fun v => v) c (init (hinit h)) ops).
+  Forall (fun rs => HI (snd rs)) (run vdef score_fn (hpopulate h mk vdef) hk hk (fun a => a) reissue c (init (hinit h)) ops).
 Proof.
   intros Hab.
-  assert (H : forall s, Inv s -> HI s -> Forall (fun rs => HI (snd rs)) (run vdef score_fn (hpopulate h mk vdef) hk hk (fun a => a) (fun v => v) c s ops)).
+  assert (H : forall s, Inv s -> HI s -> Forall (fun rs => HI (snd rs)) (run vdef score_fn (hpopulate h mk vdef) hk hk (fun a => a) reissue c s ops)).
   { induction ops as [|o r IH]; intros s HIv HH; simpl; [constructor|].
     destruct (stepf c s o) as [s' rs] eqn:Es.
     assert (HH' : HI s'). { pose proof (hi_step c s o Hab HIv HH) as H. now rewrite Es in H. }
     assert (HIv' : Inv s').
     { destruct o as [tu|id f|id es f|]; simpl in Es.
-      - pose proof (inv_create vdef (hpopulate h mk vdef) (fun v => v) c s tu HIv) as H. now rewrite Es in H.
+      - pose proof (inv_create vdef (hpopulate h mk vdef) reissue c s tu HIv) as H. now rewrite Es in H.
       - pose proof (inv_update s id f HIv) as H. now rewrite Es in H.
       - pose proof (inv_end score_fn hk hk c s id es f Hab HIv) as H. now rewrite Es in H.
       - pose proof (inv_reload (fun a => a) s HIv) as H. now rewrite Es in H. }
     constructor; [exact HH'|now apply IH]. }
-  apply (H (init (hinit h))); [apply (inv_init vdef score_fn (hpopulate h mk vdef) hk hk (fun a => a) (fun v => v))|].
+  apply (H (init (hinit h))); [apply (inv_init vdef score_fn (hpopulate h mk vdef) hk hk (fun a => a) reissue)|].
   unfold HI, HInv, init, hinit. cbn [trials algo brackets archive app]. constructor; [|constructor].
   (* the first, empty bracket *)
   assert (Hrep : forall k l, nth_error (repeat (@nil entry) (S (nbrackets h - 1))) k = Some l -> l = []).
